@@ -178,6 +178,12 @@ async def _scenario(loop: Any, hist: dict) -> dict:
     return res
 
 
+def _is_array_fragment(line: str) -> bool:
+    """A one-element I|000A / I|22C9 broadcast: the tail of an array that a controller / UFC split over two packets."""
+    fr = line[4:] if line[:3].strip(".").isdigit() or line[:3] == "..." else line
+    return fr[:2] == " I" and fr[37:41] in ("000A", "22C9") and fr[7:16] == fr[27:36] and fr[42:45] == "006"
+
+
 def judge(hist: dict, res: dict) -> list[tuple[dict, str]]:
     out: list[tuple[dict, str]] = []
     seen = set()
@@ -201,14 +207,17 @@ def judge(hist: dict, res: dict) -> list[tuple[dict, str]]:
         if not pt["pkts_equal"]:
             d = pt["diff"]
             kind = "lost" if d["n"][1] == 0 else "gained" if d["n"][0] == 0 else "changed"
-            code = (d["only_in_source"] or d["only_in_restored"])[0][1][41:45]
-            add({"clause": "packets-differ-after-restore", "kind": kind, "code": code}, f"at {at} (include_expired={pt['include_expired']}): {d}")
+            first = (d["only_in_source"] or d["only_in_restored"])[0][1]
+            add({"clause": "packets-differ-after-restore", "kind": kind, "code": first[41:45], "array_fragment": _is_array_fragment(first)},
+                f"at {at} (include_expired={pt['include_expired']}): {d}")
         if not hist.get("eavesdrop") and not pt["schema_equal"]:
             add({"clause": "schema-differs-after-restore"}, f"at {at}: {pt['schemas'][0]} vs {pt['schemas'][1]}")
         if not pt["second_restore_same"]:
             add({"clause": "second-restore-changes-state"}, f"at {at}")
         if not pt["self_restore_same"]:
-            add({"clause": "self-restore-changes-state"}, f"at {at}: {pt.get('self_diff')}")
+            sd = pt.get("self_diff") or ([], [])
+            first = (sd[0] or sd[1] or [("", "")])[0][1]
+            add({"clause": "self-restore-changes-state", "code": first[41:45], "array_fragment": _is_array_fragment(first)}, f"at {at}: {pt.get('self_diff')}")
     return out
 
 
